@@ -144,7 +144,11 @@ func c07(r *ev.Result, tier string) {
 
 	/* (a) address precedence. */
 	params := [][2]string{{"", ""}, {"p.example:8443", "p.example:8443"}, {"p.example/x~y", "p.example%2Fx%7Ey"}, {"[2001:db8::1]:8443", "%5B2001:db8::1%5D:8443"}, {"redir.example/static/p\xc3\xa4th", "redir.example%2Fstatic%2Fp%C3%A4th"}}
-	hosts := [][2]string{{"", ""}, {"host.example", "host.example"}, {"host.example:8443", "host.example:8443"}, {"[::1]:4444", "[::1]:4444"}, {"[2001:db8::10]", "[2001:db8::10]"}, {"192.0.2.9:8443", "192.0.2.9:8443"}, {"b\xc3\xbccher.example", "xn--bcher-kva.example"}, {"m\xc3\xbcnchen.example:4444", "xn--mnchen-3ya.example:4444"}}
+	hosts := [][2]string{{"", ""}, {"host.example", "host.example"}, {"host.example:8443", "host.example:8443"}, {"[::1]:4444", "[::1]:4444"}, {"[2001:db8::10]", "[2001:db8::10]"}, {"192.0.2.9:8443", "192.0.2.9:8443"}, {"b\xc3\xbccher.example", "xn--bcher-kva.example"}, {"m\xc3\xbcnchen.example:4444", "xn--mnchen-3ya.example:4444"},
+		/* Hosts net/http lets through and IDNA conversion refuses: no
+		concern of a request that says where to call back (only used with a
+		c2 parameter or header). */
+		{"xn--0.example", "!"}, {"xn--.example:8443", "!"}}
 	seen := map[string]bool{}
 	for _, listen := range []string{"127.0.0.1:0", "[::1]:0", "127.0.0.1:443"} {
 		w, err := hworld.Start(hworld.Config{Listen: listen})
@@ -172,6 +176,12 @@ func c07(r *ev.Result, tier string) {
 							q := c07Req{Param: p[0], ParamWire: p[1], Form: form, Chunked: "form-chunked" == formKind, Header: hdr, Host: h[0], HostWant: h[1], SNI: sni}
 							if q.Chunked && "" == q.Host {
 								continue /* HTTP/1.0 knows no chunks. */
+							}
+							if "!" == q.HostWant {
+								if "" == q.Param && "" == q.Header {
+									continue
+								}
+								q.HostWant = q.Host
 							}
 							c, err := w.Dial(sni)
 							if nil != err {
